@@ -278,7 +278,12 @@ def _r1(run, prog, ci):
                     term = norm(s_.value.right) if norm(s_.targets[0]) == norm(s_.value.left) else norm(s_.value.left)
         elif len(gens) == 1 and len(gens[0].generators) == 1:
             it, tgt, term = norm(gens[0].generators[0].iter), norm(gens[0].generators[0].target), norm(gens[0].elt)
-        if it is None or term is None:
+        from ._purity import check_sum, sum_accumulators
+        accn = [a[0] for a in sum_accumulators(g)]
+        bad_sum = any(not check_sum(run, 'C17-R1', ci.mod.name + '|%s|total_volume' % c.name, ci.mod.relpath, g, nm_, 'total_volume') for nm_ in set(accn))
+        if bad_sum:
+            pass
+        elif it is None or term is None:
             run.undecided('C17-R1', 'total_volume', 'accumulation not recognised')
         elif term != '%s.volume' % tgt:
             run.fail('C17-R1', ci.mod.name + '|%s|total_volume|term' % c.name, ci.mod.relpath, g.lineno, 'total_volume accumulates %s per voxel, not its volume' % term)
@@ -476,6 +481,8 @@ def _r2(run, ci):
                  '(r, 0, z) of vertex triangles[tri_index, k]' % [g[:70] for g in got_])
     else:
         run.undecided('C17-R2', 'sample inside the chosen triangle', 'corners not resolved: %s' % (got_ and [g[:40] for g in got_]))
+    from ._purity import check_sum
+    check_sum(run, 'C17-R2', K + 'mean', ci.mod.relpath, fn, 'emissivity', 'emissivity_from_function')
     run.subject('C17-R2')
     acc = [s for s in l2.body if isinstance(s, ast.AugAssign) and norm(s.target) == 'emissivity']
     div = [s for s in fn.body if isinstance(s, ast.AugAssign) and isinstance(s.op, ast.Div) and norm(s.target) == 'emissivity']
